@@ -83,7 +83,7 @@ Definition pool_step (s : pstate) (code : N) (args : list garg) : pstate * list 
   | 6 => (* judge the IMPLEMENTATION's views: CountTx NumBytes CountSenders Keys [per alphabet sender: hashes] afterAdd *)
          let lists := combine (ps_alpha s) (map (fun l => map arg_B (arg_L l)) (arg_L (nth_arg args 4))) in
          let v := mkViews (map arg_B (arg_L (nth_arg args 3))) lists (arg_Z (nth_arg args 0)) (arg_Z (nth_arg args 1)) (arg_Z (nth_arg args 2)) in
-         let own := mkViews (keys p) (map (fun a => (a, map hash (pool_for_sender p a))) (ps_alpha s)) (cntTx p) (numBytes p) (cntSenders p) in
+         let own := views_of (ps_alpha s) p in
          (s, [(30, g_bool (c05_viewsb (ps_known s) v)); (31, g_bool (negb (arg_bool (nth_arg args 5)) || c06_viewsb cfg (ps_last s) v));
               (32, g_bool (c05_viewsb (ps_known s) own))])
   | _ => (s, [])
